@@ -29,6 +29,7 @@ def cases(tier, rng, extended=False):
     if extended:
         reps *= 4
     yield from long_cases(tier, rng)
+    yield from scan_cases(tier, rng)
     polls = [0, 1, 2, 3, 5, 10, 50, 500]
     times = [0, 1, 5, 20, 100, 400]
     for _ in range(reps):
@@ -64,7 +65,38 @@ def long_cases(tier, rng):
                            profiles=None if fl == "abortms=300" and not th else ["release"])
 
 
+def scan_cases(tier, rng):
+    """EVERY flip instant of a run: the harness counts the polls P of an undisturbed run and then
+    flips the predicate at its k-th poll for every k = 0..P (deterministic single-threaded runs;
+    with a pool the poll order varies but each k is still tried)"""
+    quick = tier == "quick"
+    plan = [("siqs", 100, 0), ("siqs", 130, 0), ("siqs", 150, 0), ("siqs", 162, 0), ("siqs", 150, 2),
+            ("mpqs", 110, 0), ("mpqs", 140, 0), ("mpqs", 140, 3), ("qs", 90, 0), ("qs", 120, 0), ("qs", 120, 2),
+            ("auto", 100, 0), ("auto", 150, 0)]
+    if not quick:
+        plan += [("siqs", 175, 0), ("siqs", 185, 0), ("siqs", 170, 4), ("mpqs", 165, 0), ("qs", 140, 0),
+                 ("auto", 180, 0), ("ecm", 90, 0)]
+    for alg, bits, th in plan:
+        n = gen.rand_prime(rng, bits // 2) * gen.rand_prime(rng, bits - bits // 2)
+        yield Case(f"abort_scan {n} {alg} {th} {300 if quick else 2000}", k=False, tag=f"scan{bits}b", timeout=900,
+                   profiles=None if bits <= 130 else ["release"])
+
+
+_scan = {"runs": 0, "flip_instants": 0}
+
+
 def oracle(case, ans):
+    if case.op == "abort_scan":
+        kv = dict(x.split("=", 1) for x in ans.split()) if "=" in ans else {}
+        if not kv:
+            return f"scan did not answer ({ans})"
+        _scan["runs"] += 1
+        _scan["flip_instants"] += int(kv["runs"])
+        if kv["bad"] != "-":
+            return f"abort at poll index(es) {kv['bad']} of {kv['polls']} did not give a clean, consistent answer"
+        if int(kv["maxlat_ms"]) > LAT_BOUND_MS:
+            return f"latency {kv['maxlat_ms']} ms after the flip"
+        return None
     kind, fs, trace, md = fc.parse_answer(ans)
     n = int(case.args[0])
     if kind not in ("ok", "failure"):
@@ -83,6 +115,8 @@ followup = fc.replay_request
 
 
 def klass(case, ans):
+    if case.op == "abort_scan":
+        return f"scan/{case.args[1]}/threads={case.args[2]}"
     kind, fs, trace, md = fc.parse_answer(ans)
     flip = [t for t in case.args if t.startswith("abort")][0].split("=")[0]
     fired = "fired" if md.get("late", 0) > 0 else ("polled" if md.get("polls", 0) > 0 else "never-polled")
@@ -93,7 +127,13 @@ def klass(case, ans):
 
 
 def nontrivial(case, ans):
+    if case.op == "abort_scan":
+        return True
     return fc.parse_answer(ans)[3].get("polls", 0) > 0
+
+
+def extra_coverage():
+    return {"exhaustive_flip_scans": dict(_scan)}
 
 
 CLAIM = ("Lean theorem over the control-flow model with the abort predicate an arbitrary stateful oracle: for every flip instant the "
